@@ -49,6 +49,8 @@ impl<'a> Px<'a> {
         let mut execs = 0;
         let real = loop {
             let h = Holey { ops: Arc::new(ops.clone()) };
+            // write-ahead: should this execution never return (or abort), the parent re-runs it alone
+            wal::set(&wal_encode(&self.label, self.env, self.init, &ops));
             let r = run_real_with(self.init, h, self.env, false);
             execs += 1;
             if let RealOut::Err { hole: Some(p), .. } = &r {
@@ -200,4 +202,53 @@ pub fn replay_prog(prop: &'static str, case: &Value) -> Result<bool, String> {
         return Ok(false);
     }
     Ok(compare(&r1, &rf, &|i| ops.get(i).map(crate::refvm::is_compute).unwrap_or(false), &mut |_| {}).is_some())
+}
+
+/// Write-ahead form of one program execution: 'X' + postcard(label, cost, limit, init, bytecode
+/// with holes filled by Halt, hole positions).
+pub fn wal_encode(label: &str, env: &ProgEnv, init: &RVm, ops: &[Option<Op>]) -> Vec<u8> {
+    let halt = Op::TotalControlFlow(essential_asm::TotalControlFlow::Halt);
+    let filled: Vec<Op> = ops.iter().map(|o| o.clone().unwrap_or(halt.clone())).collect();
+    let holes: Vec<u16> = ops.iter().enumerate().filter(|(_, o)| o.is_none()).map(|(i, _)| i as u16).collect();
+    let body = (label.to_string(), env.cost, env.limit, RvmSer::from(init), essential_asm::to_bytes(filled).collect::<Vec<u8>>(), holes);
+    let mut v = vec![b'X'];
+    v.extend(postcard::to_allocvec(&body).unwrap_or_default());
+    v
+}
+
+type WalBody = (String, Cost, u64, RvmSer, Vec<u8>, Vec<u16>);
+
+fn wal_decode(b: &[u8]) -> Option<(WalBody, Vec<Option<Op>>)> {
+    if b.first() != Some(&b'X') {
+        return None;
+    }
+    let body: WalBody = postcard::from_bytes(&b[1..]).ok()?;
+    let ops: Vec<Op> = essential_asm::from_bytes(body.4.iter().copied()).collect::<Result<_, _>>().ok()?;
+    let mut ops: Vec<Option<Op>> = ops.into_iter().map(Some).collect();
+    for h in &body.5 {
+        if let Some(o) = ops.get_mut(*h as usize) {
+            *o = None;
+        }
+    }
+    Some((body, ops))
+}
+
+pub fn wal_describe(b: &[u8]) -> Value {
+    match wal_decode(b) {
+        Some((body, ops)) => json!({
+            "kind": "prog", "label": body.0, "cost": body.1, "limit": body.2, "init": body.3,
+            "ops": ops.iter().map(|o| o.as_ref().map(|o| format!("{o:?}")).unwrap_or("<hole>".into())).collect::<Vec<_>>(),
+            "ops_hex": hex::encode(&body.4),
+        }),
+        None => json!("undecodable write-ahead record"),
+    }
+}
+
+/// Re-execute the recorded program alone (may hang or die: that is the point).
+pub fn wal_run(b: &[u8]) {
+    if let Some((body, ops)) = wal_decode(b) {
+        let env = ProgEnv::basic(body.1, body.2);
+        let h = Holey { ops: Arc::new(ops) };
+        let _ = run_real_with(&RVm::from(&body.3), h, &env, false);
+    }
 }
